@@ -51,6 +51,12 @@ func checkC01(c *Ctx) {
 		c.Undecided("C01-R1", "package tcell", "-", "not loaded")
 		return
 	}
+	c.Rule("C01-R20", "ShowCursor remembers the requested position as given (the two parameters, unconditionally): whether it is on the screen is decided at each draw, so a resize can bring it into view")
+	c.Expect("C01-R20", 1)
+	checkShowCursorStoresRequest(c, p, "C01-R20", "tScreen")
+	c.Rule("C01-R21", "every operand handed to the parameter interpreter (TParm, directly or through a wrapper) is an int, a string or a bool: its stack reads anything else (int32 colour components, bytes) as 0")
+	c.Expect("C01-R21", 1)
+	checkTParmOperandTypes(c, p, "C01-R21")
 	get := func(name string) *ssa.Function {
 		fn := p.Fn("tcell:(*tScreen)." + name)
 		if fn == nil {
